@@ -248,6 +248,11 @@ def check_schedule(ctx, case, enum=False):
     for idx, e in errors:
         ctx.fail("exception/%s/%s/%s" % (opnames[idx], type(e).__name__, exc_sig(e).split("@")[-1]), case,
                  "thread %d (%s) raised %r under plan %r" % (idx, opnames[idx], e, plan))
+    if stats["outcome"] == "stuck":
+        # a thread blocked on a primitive outside the harness (a real lock held by the preempted thread):
+        # this placement cannot be explored, which is not a verdict about the library
+        ctx.event("stuck-schedules")
+        return stats
     if stats["outcome"] != "done":
         ctx.fail("schedule-did-not-finish/%s" % stats["outcome"], case, "")
     for i, nm in enumerate(opnames):
